@@ -229,6 +229,55 @@ func TestVerifC12(t *testing.T) {
 					res.Failf("rule-build:"+text, text, "BuildUserspace of %q failed: %v", text, err)
 					continue
 				}
+				// source and destination in different relation to the sets: sip(S) and dip(S) share one trie, each must still be
+				// asked about its own address. Program: sip(S) && (dip(S2) | dport(9)) -> d ; dip(S) -> a ; sip(S2) -> b ; fallback c
+				text2 := "routing {\n sip(" + joinComma(txt) + ") && "
+				if len(set2) > 0 {
+					text2 += "dip(" + joinComma(txt2) + ") -> d\n"
+				} else {
+					text2 += "dport(9) -> d\n"
+				}
+				text2 += " dip(" + joinComma(txt) + ") -> a\n"
+				if len(set2) > 0 {
+					text2 += " sip(" + joinComma(txt2) + ") -> b\n"
+				}
+				text2 += " fallback: c\n}\n"
+				if b2, err := verifCompileRouting(text2, n2i, nil, optimize); err != nil {
+					res.Failf("rule-build:"+text2, text2, "compiling %q failed: %v", text2, err)
+				} else if m2, err := b2.BuildUserspace(); err != nil {
+					res.Failf("rule-build:"+text2, text2, "BuildUserspace of %q failed: %v", text2, err)
+				} else {
+					for _, cs := range v.Cases {
+						for _, cd := range v.Cases {
+							if cs.Addr.Fam != cd.Addr.Fam {
+								continue
+							}
+							s16 := c12Addr(cs.Addr.Fam, cs.Addr.B).As16()
+							d16 := c12Addr(cd.Addr.Fam, cd.Addr.B).As16()
+							want := uint8(4)
+							switch {
+							case cs.Exp && len(set2) > 0 && cd.Exp2:
+								want = 5
+							case cd.Exp:
+								want = 2
+							case len(set2) > 0 && cs.Exp2:
+								want = 3
+							}
+							var zero [16]byte
+							ipv := consts.IpVersion_4
+							if cs.Addr.Fam == 6 {
+								ipv = consts.IpVersion_6
+							}
+							got, _, _, err := m2.Match(s16, d16, 1, 2, ipv, consts.L4ProtoType_TCP, "", zero, 0, zero)
+							res.Eval(1)
+							if err != nil || uint8(got) != want {
+								res.Failf(fmt.Sprintf("rule2:%s:%v>%v", text2, c12Addr(cs.Addr.Fam, cs.Addr.B), c12Addr(cd.Addr.Fam, cd.Addr.B)),
+									map[string]any{"config": text2, "src": c12Addr(cs.Addr.Fam, cs.Addr.B).String(), "dst": c12Addr(cd.Addr.Fam, cd.Addr.B).String(), "optimize": optimize},
+									"program %q routes src=%v dst=%v to outbound id %d (err %v); CIDR containment requires id %d (a=2,b=3,c=4,d=5)", text2, c12Addr(cs.Addr.Fam, cs.Addr.B), c12Addr(cd.Addr.Fam, cd.Addr.B), got, err, want)
+							}
+						}
+					}
+				}
 				for _, c := range v.Cases {
 					a16 := c12Addr(c.Addr.Fam, c.Addr.B).As16()
 					want := uint8(4)
